@@ -1,4 +1,4 @@
-(* C11 — property theorems (statements only; proofs live in Acme.C11.{Proofs,Strings,RoundTrip,RoundTripEnum}).
+(* C11 — property theorems (statements only; proofs live in Acme.C11.{Proofs,Strings,RoundTrip,RoundTripEnum,RoundTripAttr}).
    Model: Acme.C10.{Export,Import,BusModel}; `export_import b = import (text_roundtrip (export b))`.
    Partial: the whole-bus theorem `export_import_ast_plain_partial` is an AST-level statement (import of the
    exported AST after the MODELLED write/parse effect; names need not be identifiers) proved for PLAIN buses (standard signals,
@@ -8,14 +8,19 @@
    minimum, maximum, unit, description, names with blanks; `export_import_ast_enum_partial` extends it to
    buses with ENUM signals (`ebus`: any well-formed enum table, enums shared between signals, enums
    with equal values and different minimum sizes, enums without values): enum values and signal size
-   are reproduced although the imported enum table differs (tables matched by content, clones per size).
+   are reproduced although the imported enum table differs (tables matched by content, clones per size);
+   `export_import_ast_attr_partial` extends that to buses with ATTRIBUTES (`abus`): assignments of the four
+   attribute types (and hex format) on the bus, the nodes, the messages and the signals, and the dedicated
+   fields cycle / delay / start-delay time, message send type, signal start value, signal send type
+   (exported as the well-known Gen* attributes and landing back in the fields).  Not covered by a
+   whole-bus theorem: multiplexers.
    The full statement is
    Acme.C11.RoundTrip.export_import_full_statement (well_formed, names_ok spelled out there).
    The other ingredients are proved in isolation: the four attribute types (+hex) and their defaults
    through the write/parse effect, SG_MUL_VAL_ ranges, the start-bit conversion, the sanitiser. *)
 From Coq Require Import String ZArith List.
 From Acme.C10 Require Import DbcDoc BusModel Import Export Bits.
-From Acme.C11 Require Import Strings Proofs RoundTrip RoundTripEnum Refuted.
+From Acme.C11 Require Import Strings Proofs RoundTrip RoundTripEnum RoundTripAttr Refuted.
 Import ListNotations.
 Open Scope Z_scope.
 
@@ -36,6 +41,15 @@ Theorem export_import_ast_enum_partial : forall b, ebus b ->
   exists b', export_import b = Ok b' /\ proj_bus b' = proj_bus b.
 Proof. exact RoundTripEnum.export_import_enum_thm. Qed.
 Print Assumptions export_import_ast_enum_partial.
+
+(* ... and with attribute assignments on every entity kind and the six dedicated fields (`abus`: the
+   structure of `ebus`, per entity distinct sanitised attribute names that are not well-known names,
+   `wf_asg` assignments, equal names carry equal definitions, send types inside their tables, canonical
+   start values) *)
+Theorem export_import_ast_attr_partial : forall b, abus b ->
+  exists b', export_import b = Ok b' /\ proj_bus b' = proj_bus b.
+Proof. exact RoundTripAttr.export_import_attr_thm. Qed.
+Print Assumptions export_import_ast_attr_partial.
 
 (* attribute definitions of the four types (and hex format), defaults included *)
 Theorem attr_def_roundtrip : forall k name d, wf_def d ->
